@@ -22,7 +22,7 @@ pub fn mon() -> Mon {
             "requests whose SMBus source address and source endpoint ID name different requesters, and EIDs 0x00/0xFF in Set Endpoint ID, are outside the quantifier and not generated",
             "tag-owner/tag bits and the datagram/reserved bits of the response are not constrained by the statement",
         ],
-        children: no_children,
+        children: rel_child_quarter,
     }
 }
 
